@@ -235,7 +235,9 @@ var c13StrPositions = []struct {
 	{"array element and object value", func(x Expr, lit func() Expr) []Stmt {
 		return []Stmt{Pr(Bin("==", Idx(Arr_(lit()), N("0")), x)), Ex(Asg("=", V("o"), &ObjLit{Keys: []string{"k"}, Vals: []Expr{lit()}})), Pr(Bin("==", Mem(V("o"), "k"), x))}
 	}},
-	{"method receiver", func(x Expr, lit func() Expr) []Stmt { return []Stmt{Pr(Bin("==", CallE(Mem(lit(), "length")), CallE(Mem(x, "length"))))} }},
+	{"method receiver", func(x Expr, lit func() Expr) []Stmt {
+		return []Stmt{Pr(Bin("==", CallE(Mem(lit(), "length")), CallE(Mem(x, "length"))))}
+	}},
 	{"printf argument", func(x Expr, lit func() Expr) []Stmt {
 		return []Stmt{Ex(CallE(V("printf"), S("%s|%v|"), lit(), x)), Pr(S(""))}
 	}},
@@ -401,8 +403,10 @@ func init() {
 			"oracle: same stdout, outcome and JSON output as the canonical layout (which the model confirms); (ii) every ordered pair and triple of the 66 token spellings written without blanks, and with one blank, through the lexer hook against a reference lexer written from 3.18 (segmentation, token class, lexical validity); " +
 			"(iii) all string literal contents of length <= 3 (thorough 4) over {a, blank, #, ', \", \\, n, t, q, é} in both quote styles against the model's escape rules, concatenated / assigned and as the only literal of the program in 14 syntactic positions (operand of == != < >= on either side, if condition, match pattern and subject, index key, call / printf / contains argument, array element, object value, method receiver, && operand, return value) compared with the denoted string supplied by the input; (iv) numerals incl. leading zeros, every prefix of four 25-digit strings with the point at every place (1 300 numerals) against a math/big nearest-double oracle, string literals / names / regex literals of 255 ... 131 077 bytes, every numeral-operator-numeral spelling without blanks, and every operator glued between 11 kinds of left operand (index, call, member, group, string, postfix call ...) and a numeral; " +
 			"7 pairs of texts for the two places where a newline is NOT layout (directly after print / return, after a comma of a print list: it ends the statement); (v) every keyword with a letter, digit or underscore glued before or after it used as a variable; states = lexical classes and literal outcomes; non-trivial = escapes that yield a value",
-		Plan:  func(t fw.Tier) int { return ns*layoutParts + nt + 4 },
-		Bound: func(t fw.Tier) string { return "k=2 layout deviations (thorough: +k=3 over line-break deviations); token pairs and triples; strings <= 3 (4)" },
+		Plan: func(t fw.Tier) int { return ns*layoutParts + nt + 4 },
+		Bound: func(t fw.Tier) string {
+			return "k=2 layout deviations (thorough: +k=3 over line-break deviations); token pairs and triples; strings <= 3 (4)"
+		},
 		Assumptions: []string{"reference lexer mc/refsem/lex.go; numerals directly followed by '.' and non-ASCII bytes outside strings are not compared (3.18 / 7.1)", "hook VerifLex exposes the lexer's token stream", "math/big as nearest-double oracle"},
 		Run: func(c *fw.Ctx, u int) {
 			switch {
